@@ -652,6 +652,18 @@ impl Model {
         out.cone_start = self.reach(&roots);
         self.evaluated.clear();
         self.settled.clear();
+        // Top-level variables and constants sit below every other node: the ones that are needed when
+        // the round starts are brought up to date before any bind can switch away from them, whether
+        // or not they are still needed when the round ends.
+        let lowest: Vec<Key> = out
+            .cone_start
+            .iter()
+            .filter(|k| matches!(k, Key::Outer(_)) && matches!(self.nodes[*k].kind, RKind::Var | RKind::Const(_)))
+            .cloned()
+            .collect();
+        for k in lowest.iter() {
+            self.eval(k, &mut out);
+        }
         for r in roots.iter() {
             self.eval(r, &mut out);
         }
@@ -717,6 +729,7 @@ impl Model {
                         continue;
                     }
                     let (new, flag) = Self::apply_kind(&kind, &real_args, n.val.as_ref());
+                    self.adopt_inputs(&kind.inputs(), &real_args, round);
                     self.run(key, new, flag, &mut scratch);
                 }
                 Ev::FoldDone { key, args } if !out.cone_end.contains(key) => {
@@ -725,6 +738,10 @@ impl Model {
                         continue;
                     }
                     let new = sum(args.iter());
+                    let ins = n.kind.inputs();
+                    if ins.len() == args.len() {
+                        self.adopt_inputs(&ins, args, round);
+                    }
                     self.run(key, new, None, &mut scratch);
                 }
                 Ev::BindRun { key, arg, .. } if !out.cone_end.contains(key) => {
@@ -732,7 +749,8 @@ impl Model {
                     if !n.valid || n.closure_ran == round {
                         continue;
                     }
-                    let RKind::Bind { even, odd, .. } = n.kind.clone() else { continue };
+                    let RKind::Bind { even, odd, lhs } = n.kind.clone() else { continue };
+                    self.adopt_inputs(&[lhs], std::slice::from_ref(arg), round);
                     let made = std::mem::take(&mut self.nodes.get_mut(key).unwrap().made);
                     for m in made {
                         self.invalidate(&m, &mut scratch);
@@ -751,6 +769,21 @@ impl Model {
             }
         }
         self.now = save_now;
+    }
+
+    /// A node that was needed only at the start of the round ran with `args`: inputs whose value the
+    /// reference did not bring up to date (they dropped out of the cone before it got to them) were
+    /// evidently recomputed by the engine in this round; follow it.
+    fn adopt_inputs(&mut self, inputs: &[Key], args: &[Val], round: i32) {
+        for (k, a) in inputs.iter().zip(args.iter()) {
+            if let Some(n) = self.nodes.get_mut(k) {
+                if n.valid && n.val.as_ref() != Some(a) {
+                    n.val = Some(a.clone());
+                    n.ran = round;
+                    n.changed = round;
+                }
+            }
+        }
     }
 
     /// A run the reference did not expect but which a listed known finding explains: follow the
